@@ -195,6 +195,7 @@ package interpreter
 //@     invariant [allocated] totalAllocated != nil && fresh(ref(totalAllocated)) && val(totalAllocated) == sumVals(parts, iter)
 //@     assert [step-product] rat(product) == rat(allot) * real(val(monetary)) && val(floored) == floor(rat(product)) && allot == allotments[i]
 //@     assert [step-floor] real(val(floored)) <= rat(product) && rat(product) < real(val(floored)) + 1
+//@     assert [step-rats] forall(j, 0, len(allotments), rat(allotments[j]) == athead(rat(allotments[j]))) && val(monetary) == athead(val(monetary))
 //@     assert [step-prefix] sumRatsTimes(allotments, i, val(monetary)) == athead(sumRatsTimes(allotments, i, val(monetary))) && sumVals(parts, i) == athead(sumVals(parts, i))
 //@     assert [step-total] val(totalAllocated) == athead(val(totalAllocated)) + val(floored) && sumRatsTimes(allotments, i + 1, val(monetary)) == sumRatsTimes(allotments, i, val(monetary)) + rat(product)
 //@     invariant [bracket-lo] {C06} real(val(totalAllocated)) <= sumRatsTimes(allotments, iter, val(monetary))
@@ -324,6 +325,7 @@ package interpreter
 //@   loop 1
 //@     invariant [items] len(items) == iter && forall(j, 0, iter, items[j] == as(destination, *parser.DestinationAllotment).Items[j].Allotment)
 //@   loop 2
+//@     assert [step-allot] forall(j, 0, len(allot), allot[j] == athead(allot[j]) && val(allot[j]) == athead(val(allot[j])))
 //@     invariant [received] {C05} sumMon(s.Receivers, len(s.Receivers)) == old(sumMon(s.Receivers, len(s.Receivers))) + sumVals(allot, iter)
 //@     invariant [allot] len(allot) == len(as(destination, *parser.DestinationAllotment).Items) && sumVals(allot, len(allot)) == val(amount) && forall(j, 0, len(allot), allot[j] != nil && val(allot[j]) >= 0 && fresh(ref(allot[j])))
 //@     invariant [total] receivedTotal != nil && fresh(ref(receivedTotal)) && forall(j, 0, len(s.Receivers), s.Receivers[j].Monetary != receivedTotal) && forall(j, 0, len(allot), allot[j] != receivedTotal)
